@@ -31,4 +31,17 @@ var props = map[string]Prop{
 			inj("xflag", "internal/build", "zz_verif_c17_test.go", "llvm14", "TestVerifC17", 30000, 500000, 1, 2),
 		},
 	},
+	"C18": {
+		ID: "C18", Level: "exploration",
+		Rule: "(1) every shipped targets/*.json loaded with a fresh loader, through LoadAll and in rapid-drawn orders through a shared loader; (2) rapid-generated acyclic inheritance forests (1-12 descriptions, depth <= 5, 0-3 parents, duplicates and diamonds) over every Config field found by reflection, each node resolved fresh, warm, twice and through LoadAll and compared field by field with an independent resolver over the raw JSON; (3) ill-formed forests (missing parent, self-inheritance, 2- and 3-cycles, cycle behind the second parent, malformed JSON) resolved in a helper process that must answer with an error. Non-trivial: shipped target with an inherits list; forest with a diamond or >= 3 levels in which some field is defined at two levels of one chain; every ill-formed forest. Distinct by hash of target name / forest JSON.",
+		Assumptions: []string{
+			"explicit zero values in a child (\"\", false, []) are outside the generated domain: the loader documents that only non-empty values override",
+			"the helper process lowers debug.SetMaxStack to 32 MiB so that runaway recursion is observed as a crash within a second",
+		},
+		Jobs: []Job{
+			inj("shipped", "internal/targets", "zz_verif_c18_test.go", "", "TestVerifC18Shipped", 300, 5000, 1, 1),
+			inj("forest", "internal/targets", "zz_verif_c18_test.go", "", "TestVerifC18Forest", 1500, 60000, 4, 16),
+			inj("illformed", "internal/targets", "zz_verif_c18_test.go", "", "TestVerifC18IllFormed", 400, 20000, 2, 8),
+		},
+	},
 }
